@@ -92,6 +92,10 @@ func init() {
 		symPkg + ".Clock":          symClock,
 		symPkg + ".Instant":        symInstant,
 		symPkg + ".ClockFine":      symClockFine,
+		symPkg + ".ClockSpan": func(fr *frame, args []value) value {
+			fr.i.clockSpan = uint64(asInt64(args[0]))
+			return nil
+		},
 		symPkg + ".Fail":           symFail,
 		symPkg + ".Thorough":       func(fr *frame, args []value) value { return fr.i.cfg.Tier == "thorough" },
 		symPkg + ".Bound":          symBound,
@@ -1069,6 +1073,7 @@ func symClockFine(fr *frame, args []value) value {
 		in.assume(in.ts.Or(later, same))
 	}
 	in.clockLast, in.clockHalf = v, h
+	in.clockWithinSpan(v)
 	return in.mkTimeHalf(v, h)
 }
 
@@ -1085,7 +1090,20 @@ func symClock(fr *frame, args []value) value {
 		in.assume(in.ts.Or(in.ts.Bin(term.OpULt, in.clockLast, v), in.ts.Eq(in.clockHalf, in.ts.Const(8, 0))))
 	}
 	in.clockLast, in.clockHalf = v, nil
+	in.clockWithinSpan(v)
 	return in.mkTime(v)
+}
+
+// clockWithinSpan keeps every reading within clockSpan seconds of the first
+// one (sym.ClockSpan), when the harness asked for that.
+func (in *Interp) clockWithinSpan(v *term.Term) {
+	if in.clockFirst == nil {
+		in.clockFirst = v
+		return
+	}
+	if in.clockSpan > 0 {
+		in.assume(in.ts.Bin(term.OpULe, v, in.ts.Bin(term.OpAdd, in.clockFirst, in.ts.Const(64, in.clockSpan))))
+	}
 }
 
 // symInstant: an arbitrary instant in the clock's range, unrelated to the
